@@ -492,6 +492,7 @@ func runC09(c *mon.Ctx) {
 	for i := 0; i < 32; i++ {
 		c.Require(fmt.Sprintf("getbest:subset-%02d", i))
 	}
+	c.Require("getbest:macintosh-chosen")
 }
 
 // c09fmt4 is one case of the library-encoder format 4 strata.
@@ -1475,19 +1476,28 @@ func c09getbest(k *mon.Case) {
 	subset := k.Index % 32
 	t := cmap.Table{}
 	const probe = 'A'
-	// the subtable under candidate i maps 'A' to glyph 100+i, noise to 900+
+	// the subtable under candidate i maps 'A' to glyph 100+i and U+00E9 to
+	// glyph 50+i (a Macintosh subtable holds it at its Mac Roman code 0x8E);
+	// noise keys use 200+
+	const probe2, probe2mac = 0xE9, 0x8E
 	mk := func(marker int, key cmap.Key) []byte {
+		m2 := marker - 50
 		switch {
 		case key.PlatformID == 1 && r.IntN(2) == 0:
 			var g [256]byte
 			g[probe] = byte(marker)
+			g[probe2mac] = byte(m2)
 			return cmapref.EncodeFormat0(key.Language, &g)
 		case key.PlatformID == 1 && r.IntN(2) == 0:
-			return cmapref.EncodeFormat6(key.Language, probe, []uint16{uint16(marker)})
-		case (key.EncodingID == 10 || key.EncodingID == 4) && key.PlatformID != 1 && r.IntN(4) != 0:
-			return cmap.Format12{probe: glyph.ID(marker), 0x1F600: 7}.Encode(0)
+			gl := make([]uint16, probe2mac-probe+1)
+			gl[0], gl[probe2mac-probe] = uint16(marker), uint16(m2)
+			return cmapref.EncodeFormat6(key.Language, probe, gl)
+		case key.PlatformID == 1:
+			return cmap.Format4{probe: glyph.ID(marker), probe2mac: glyph.ID(m2)}.Encode(key.Language)
+		case (key.EncodingID == 10 || key.EncodingID == 4) && r.IntN(4) != 0:
+			return cmap.Format12{probe: glyph.ID(marker), probe2: glyph.ID(m2), 0x1F600: 7}.Encode(0)
 		default:
-			return cmap.Format4{probe: glyph.ID(marker), 0x3A9: 7}.Encode(key.Language)
+			return cmap.Format4{probe: glyph.ID(marker), probe2: glyph.ID(m2), 0x3A9: 7}.Encode(key.Language)
 		}
 	}
 	want := -1
@@ -1550,6 +1560,13 @@ func c09getbest(k *mon.Case) {
 			chosen = fmt.Sprint(c09candidates[got-100])
 		}
 		k.Fail("mismatch", "getbest:preference", "subset %05b (+%d noise keys): GetBest chose %s (glyph %d), expected %v", subset, nn, chosen, got, c09candidates[want])
+	}
+	// the chosen subtable answers in Unicode, whatever its own code space is
+	if got2 := int(sub.Lookup(probe2)); got == 100+want && got2 != 50+want {
+		k.Fail("mismatch", "getbest:code-space", "subset %05b: the subtable chosen by GetBest (%v) maps U+00E9 to glyph %d, expected %d (Macintosh subtables hold it at code 0x8E)", subset, c09candidates[want], got2, 50+want)
+	}
+	if want == 4 {
+		k.Class("getbest:macintosh-chosen")
 	}
 	if nn > 0 {
 		k.Class("getbest:with-noise")
